@@ -2,6 +2,7 @@ package compaction
 
 import (
 	"fmt"
+	"github.com/KevoDB/kevo/pkg/verifhook"
 	"sync"
 	"time"
 
@@ -257,6 +258,7 @@ func (c *DefaultCompactionCoordinator) runCompactionCycle() error {
 		return fmt.Errorf("compaction failed: %w", err)
 	}
 
+	verifhook.At("compact.outputsDone")
 	// Mark input files as obsolete
 	for _, files := range task.InputFiles {
 		for _, file := range files {
@@ -264,6 +266,7 @@ func (c *DefaultCompactionCoordinator) runCompactionCycle() error {
 		}
 	}
 
+	verifhook.At("compact.inputsMarked")
 	// Try to clean up the files immediately
 	return c.fileTracker.CleanupObsoleteFiles()
 }
